@@ -30,6 +30,10 @@ MUTATIONS = {
         ('clientglue', 'tonic/src/client/grpc.rs', r'status\.metadata_mut\(\)\.merge\(parts\.clone\(\)\);', '', 'early error loses the initial metadata'),
         ('clientglue', 'tonic/src/client/grpc.rs', r'parts\.merge\(trailers\);', 'let _ = trailers;', 'trailing metadata dropped from a unary response'),
         ('clientglue', 'tonic/src/client/grpc.rs', r'Status::internal\("Missing response message\."\)', 'Status::unknown("Missing response message.")', 'missing response message reported with another code'),
+        ('serverglue', 'tonic/src/server/grpc.rs', r'req\.metadata_mut\(\)\.merge\(trailers\);', 'let _ = trailers;', 'request trailers dropped from the metadata the handler sees'),
+        ('serverglue', 'tonic/src/server/grpc.rs', r'Status::internal\("Missing request message\."\)', 'Status::ok("Missing request message.")', 'missing request message reported as OK'),
+        ('serverglue', 'tonic/src/server/grpc.rs', r'let compression_override = compression_override_from_response\(&response\);\n\n        self\.map_response\(\n            response,\n            accept_encoding,\n            compression_override,', 'let compression_override = compression_override_from_response(&response);\n\n        self.map_response(\n            response,\n            accept_encoding,\n            SingleMessageCompressionOverride::default(),', 'per-response compression override ignored'),
+        ('serverglue', 'tonic/src/server/grpc.rs', r'let response = t!\(response\);\n\n        let \(mut parts, body\) = response\.into_http\(\)\.into_parts\(\);', 'let response = t!(response);\n\n        let (mut parts, body) = response.into_http().into_parts();\n        parts.headers.remove("grpc-status-details-bin");', 'a user metadata key removed from the response'),
         ('clientglue', 'tonic/src/client/grpc.rs', r'if let Some\(trailers\) = body\.trailers\(\)\.await\? \{', 'if let Ok(Some(trailers)) = body.trailers().await {', 'error status in the trailers of a unary call ignored'),
     ],
     'C03': [
@@ -44,6 +48,9 @@ MUTATIONS = {
     'C05': [
         ('compression', 'tonic/src/codec/compression.rs', r'b"identity" => Ok\(None\),', 'b"identity" => Ok(Some(CompressionEncoding::Gzip)),', 'identity request treated as gzip'),
         ('decode', 'tonic/src/codec/decode.rs', r'if self\.encoding\.is_some\(\) \{\s*self\.encoding\s*\} else \{', 'if true { self.encoding } else {', 'flag 1 without negotiated encoding accepted'),
+        ('serverglue', 'tonic/src/server/grpc.rs', r'(fn request_encoding_if_supported[\s\S]*?)self\.accept_compression_encodings,', r'\1self.send_compression_encodings,', 'request encoding checked against the SEND set'),
+        ('serverglue', 'tonic/src/server/grpc.rs', r'(pub async fn streaming<S, B>[\s\S]*?)self\.send_compression_encodings,', r'\1self.accept_compression_encodings,', 'response encoding picked from the ACCEPT set'),
+        ('serverglue', 'tonic/src/server/grpc.rs', r'if let Some\(encoding\) = accept_encoding \{\s*// Set the content encoding', 'if let Some(encoding) = None::<CompressionEncoding> {\n            // Set the content encoding', 'chosen encoding not announced'),
         ('compression', 'tonic/src/codec/compression.rs', r"value\.put_u8\(b','\);", "value.put_u8(b';');", 'accept-encoding list separated by semicolons'),
         ('compression', 'tonic/src/codec/compression.rs', r'value\.put_slice\(b"identity"\);', 'value.put_slice(b"gzip");', 'identity not advertised'),
     ],
